@@ -37,6 +37,7 @@ from explorerscript.ssb_converting.decompiler.write_handlers.label import LabelW
 from explorerscript.ssb_converting.ssb_data_types import SsbOperation
 from explorerscript.ssb_converting.ssb_data_types import SsbOperator
 from explorerscript.ssb_converting.ssb_special_ops import (
+    OP_JUMP,
     SsbLabelJump,
     SwitchStart,
     OPS_THAT_END_CONTROL_FLOW,
@@ -120,9 +121,18 @@ class SwitchWriteHandler(AbstractWriteHandler):
                             ):
                                 root_op_before = self._get_root_op(handler.last_vertex)
                                 assert handler.last_handler_in_block is not None
+                                # A plain jump to the end of this switch wrote no statement of its own (the block stops
+                                # at the end label), it is the break.
+                                was_jump_to_switch_end = (
+                                    root_op_before is not None
+                                    and root_op_before.op_code.name == OP_JUMP
+                                    and isinstance(handler.last_handler_in_block, LabelWriteHandler)
+                                    and m.switch_id in handler.last_handler_in_block.ended_switches
+                                )
                                 if not handler.last_handler_in_block.ended_on_jump and (
                                     root_op_before is None
                                     or root_op_before.op_code.name not in OPS_THAT_END_CONTROL_FLOW
+                                    or was_jump_to_switch_end
                                 ):
                                     self.decompiler.write_stmnt("break;")
 
